@@ -474,3 +474,64 @@ func (t *derTree) relenMutant(p relenPos) []byte {
 	}
 	return emitReplace(t.roots, n, tlv(n.tag, c, lenMinimal))
 }
+
+// ---- OBJECT IDENTIFIER aware mutation --------------------------------------------------------
+//
+// Algorithm-identifier confusion: a dispatch on an OID that accepts a value one place and does not know it in
+// another is reached only with exactly that OID, usually a neighbour of a genuine one in its last arcs, or
+// another identifier of the same library. For every OID element: (a) every other value at its last and at its
+// second-to-last content byte (same length); (b) the whole element replaced by every other OID known to the run
+// (all distinct OIDs of all seed artefacts plus the library's exported identifiers), lengths recomputed. The
+// quick tier samples (b): oidSampleQuick known OIDs per element, rotating with the element index.
+
+const oidSampleQuick = 10
+
+type oidPos struct {
+	node int
+	mode int // 0: substitute last byte, 1: substitute second-to-last byte, 2: replace by known OID #val
+	val  int
+}
+
+func (t *derTree) oidPositions(known [][]byte, thorough bool) []oidPos {
+	var out []oidPos
+	k := 0
+	for i, n := range t.flat {
+		if len(n.tag) != 1 || n.tag[0] != 0x06 || len(n.body) == 0 {
+			continue
+		}
+		for back := 0; back < 2 && back < len(n.body); back++ {
+			orig := n.body[len(n.body)-1-back]
+			for v := 0; v < 256; v++ {
+				if byte(v) != orig {
+					out = append(out, oidPos{i, back, v})
+				}
+			}
+		}
+		if thorough {
+			for j := range known {
+				out = append(out, oidPos{i, 2, j})
+			}
+		} else if len(known) > 0 {
+			for j := 0; j < oidSampleQuick; j++ {
+				out = append(out, oidPos{i, 2, (k*oidSampleQuick + j*7) % len(known)})
+			}
+		}
+		k++
+	}
+	return out
+}
+
+// oidMutant builds the mutant; nil when it would reproduce the artefact.
+func (t *derTree) oidMutant(p oidPos, known [][]byte) []byte {
+	n := t.flat[p.node]
+	c := append([]byte{}, n.body...)
+	if p.mode == 2 {
+		c = known[p.val]
+		if bytes.Equal(c, n.body) {
+			return nil
+		}
+	} else {
+		c[len(c)-1-p.mode] = byte(p.val)
+	}
+	return emitReplace(t.roots, n, tlv(n.tag, c, lenMinimal))
+}
